@@ -36,12 +36,16 @@ class Read:
     arrays that had already been assigned for the current order when the read was
     evaluated (availability is judged at evaluation time, not when a work array
     holding the value is consumed)"""
-    __slots__ = ('arr', 'idx', 'node', 'asg')
+    __slots__ = ('arr', 'idx', 'node', 'asg', 'seq', 'loops')
     current_assigned = frozenset()
+    current_seq = 0
+    current_loops = ()
 
-    def __init__(self, arr, idx, node, asg=None):
+    def __init__(self, arr, idx, node, asg=None, seq=None, loops=None):
         self.arr, self.idx, self.node = arr, idx, node
         self.asg = Read.current_assigned if asg is None else asg
+        self.seq = Read.current_seq if seq is None else seq
+        self.loops = Read.current_loops if loops is None else loops
 
 
 class Val:
@@ -139,6 +143,9 @@ class KernelAnalysis:
         self.parity = None
         self.pending_o4 = []
         self.iter_stores = []
+        self.seq = 0
+        self.wlog = []      # writes: (array, ('idx', Aff) | ('fam', start, step, length), seq, loops, stmt)
+        self.rlog = []      # reads : Read objects actually consumed by a store
         self._init_params(graded_params)
 
     # ------------------------------------------------------------------ setup
@@ -271,6 +278,9 @@ class KernelAnalysis:
         for c in self.order_ctx:
             asg |= c['assigned']
         Read.current_assigned = frozenset(asg)
+        self.seq += 1
+        Read.current_seq = self.seq
+        Read.current_loops = tuple((c['var'], c['desc']) for c in self.order_ctx)
         if self._maybe_degree_unpack(st):
             return
         if isinstance(st, ast.Assign):
@@ -336,7 +346,27 @@ class KernelAnalysis:
             self._walk_opaque(st)
             return
         var = st.target.id
+        # a loop bound computed from coefficient values (e.g. "number of non-zero coefficients") makes the set of
+        # terms depend on the data and on the truncation degree
+        for n in ast.walk(st.iter):
+            if isinstance(n, ast.Name) and n.id in self.temps and self.temps[n.id].reads:
+                t = self.temps[n.id]
+                rgs = self._all_ranges([r.idx for r in t.reads])
+                for r in t.reads:
+                    ga = self.gvars.get(r.arr)
+                    if ga is None:
+                        continue
+                    w = ga.off + r.idx
+                    if not prove_le(w, Aff.const(0), rgs):
+                        self.obligations += 1
+                        self.issue('CTRL', 'VIOLATION', st, 'the range of the loop `%s` depends on `%s`, which is computed from higher-order Taylor '
+                                                            'coefficients (%s[%s]): which terms are summed depends on the data (zero patterns) and on '
+                                                            'the truncation degree' % (norm(st.iter)[:60], n.id, r.arr, r.idx), {})
+                        break
         rg = self._range_of(st.iter)
+        if rg is None and any(isinstance(n, ast.Name) and n.id in self.temps and self.temps[n.id].reads for n in ast.walk(st.iter)):
+            # reported above; analyse the body with the widest range that the expression allows (min(a, X) -> a)
+            rg = self._range_of(_strip_minmax(st.iter, self.temps))
         if rg is None:
             # loops over non-range iterables (multi-indices, blocks): analyse body without a range
             if self._mentions_graded_index(st, var):
@@ -727,7 +757,7 @@ class KernelAnalysis:
                         newpv = self.new_pos(inner.length)
                         sub = inner.length - 1 - Aff.var(newpv)
                         w = inner.w.subs(pv, sub)
-                        reads = [Read(r.arr, r.idx.subs(pv, sub), r.node, r.asg) for r in inner.reads]
+                        reads = [Read(r.arr, r.idx.subs(pv, sub), r.node, r.asg, r.seq, r.loops) for r in inner.reads]
                         return Val('fam', w, reads, inner.factors, posvar=newpv, length=inner.length)
                     if s is not None and s.is_const and s.c == 1:
                         return inner
@@ -741,7 +771,7 @@ class KernelAnalysis:
                     ia = to_aff(a0, self.aff_env)
                     if ia is not None:
                         pv = inner.posvar
-                        reads = [Read(r.arr, r.idx.subs(pv, ia), r.node, r.asg) for r in inner.reads]
+                        reads = [Read(r.arr, r.idx.subs(pv, ia), r.node, r.asg, r.seq, r.loops) for r in inner.reads]
                         return Val('w', inner.w.subs(pv, ia), reads, inner.factors)
             return Val.bot('subscript of subscript: ' + norm(n), inner.reads)
         if nm in self.gvars:
@@ -812,7 +842,7 @@ class KernelAnalysis:
             return Val.bot((a.why if a.kind == 'bot' else b.why), reads)
         if a.kind == 'fam' and b.kind == 'fam':
             bw = b.w.subs(b.posvar, Aff.var(a.posvar))
-            breads = [Read(r.arr, r.idx.subs(b.posvar, Aff.var(a.posvar)), r.node, r.asg) for r in b.reads]
+            breads = [Read(r.arr, r.idx.subs(b.posvar, Aff.var(a.posvar)), r.node, r.asg, r.seq, r.loops) for r in b.reads]
             if a.w != bw:
                 self.obligations += 1
                 self.issue('O3', 'VIOLATION', node, 'sum of two coefficient families with different weights: %s vs %s in `%s`'
@@ -855,7 +885,7 @@ class KernelAnalysis:
         if a.kind == 'fam' and b.kind == 'fam':
             # element-wise product pairs equal positions
             bw = b.w.subs(b.posvar, Aff.var(a.posvar))
-            breads = [Read(r.arr, r.idx.subs(b.posvar, Aff.var(a.posvar)), r.node, r.asg) for r in b.reads]
+            breads = [Read(r.arr, r.idx.subs(b.posvar, Aff.var(a.posvar)), r.node, r.asg, r.seq, r.loops) for r in b.reads]
             if a.length is not None and b.length is not None and a.length != b.length:
                 self.obligations += 1
                 w = find_witness(lambda v: (a.length - b.length).eval(v) != 0 and a.length.eval(v) > 1 and b.length.eval(v) > 1,
@@ -972,6 +1002,20 @@ class KernelAnalysis:
             return args[0]
         if name in META_FUNCS:
             return Val.scalar()
+        if name in ('fft', 'rfft', 'ifft', 'irfft', 'hfft') and c.args:
+            ax = kw.get('axis')
+            a0 = self.ev(c.args[0])
+            if a0.kind == 'fam' and isinstance(ax, ast.Constant) and ax.value == 0:
+                # a transform along the coefficient axis: legitimate only as a zero-padded (linear) convolution
+                nn = kw.get('n') or (c.args[1] if len(c.args) > 1 else None)
+                na = to_aff(nn, self.aff_env) if nn is not None else None
+                L = a0.length if a0.length is not None else Aff.var('#D')
+                self.obligations += 1
+                if name in ('fft', 'rfft') and (na is None or prove_le(na, L.scale(2) - 2, self._all_ranges([na, L]))):
+                    self.issue('O2', 'VIOLATION', c, 'discrete Fourier transform of length %s along the coefficient axis in `%s`: products of such '
+                                                     'transforms are *circular* convolutions - high-order coefficients wrap around into the low orders '
+                                                     '(needs zero padding to at least 2D-1)' % (na if na is not None else L, norm(c)[:70]), {})
+                return Val.bot('FFT along the coefficient axis is outside the graded idioms', a0.reads)
         if name == 'einsum' and len(c.args) == 3 and isinstance(c.args[0], ast.Constant) and isinstance(c.args[0].value, str):
             # 'iab,ibc->ac': the leading (coefficient) axis of both operands is paired and summed
             spec = c.args[0].value.replace(' ', '')
@@ -1388,6 +1432,8 @@ class KernelAnalysis:
                 self.samples.append('%s: `%s`  target weight %s = rhs weight %s; reads %s'
                                     % (fn, norm(st)[:70], W, rhs_w, sorted(set('%s[%s]' % (r.arr, r.idx) for r in v.reads))[:6]))
         self.iter_stores.append((g.name, list(v.reads), e, isinstance(aug, ast.Mult)))
+        self.wlog.append((g.name, ('idx', e), self.seq, tuple((c['var'], c['desc']) for c in self.order_ctx), st))
+        self.rlog.extend(v.reads)
         self.store_log = getattr(self, 'store_log', [])
         self.store_log.append((g.name, e, self._all_ranges([e])))
         self._reads_checks(g, W, v, st, aug)
@@ -1402,6 +1448,8 @@ class KernelAnalysis:
     def _store_family(self, g, start, step, length, v, st, aug, target):
         """whole-array / slice store: position-wise weights must agree"""
         fn = self.fi.qualname
+        self.wlog.append((g.name, ('fam', start, step, length), self.seq, tuple((c['var'], c['desc']) for c in self.order_ctx), st))
+        self.rlog.extend(v.reads)
         if v.kind == 'bot':
             self.unk(st, 'right-hand side not understood (%s): %s' % (v.why, norm(st)[:90]))
             return
@@ -1815,6 +1863,20 @@ class KernelAnalysis:
         self.ev_call(c)
 
 
+def _strip_minmax(it, temps):
+    """range(a, min(b, X)) with X data dependent -> range(a, b)"""
+    import copy
+    it = copy.deepcopy(it)
+    for n in ast.walk(it):
+        if isinstance(n, ast.Call) and isinstance(n.func, ast.Name) and n.func.id == 'range':
+            for i, a in enumerate(n.args):
+                if isinstance(a, ast.Call) and isinstance(a.func, ast.Name) and a.func.id in ('min', 'max'):
+                    keep = [x for x in a.args if not any(isinstance(y, ast.Name) and y.id in temps and temps[y.id].reads for y in ast.walk(x))]
+                    if len(keep) == 1:
+                        n.args[i] = keep[0]
+    return it
+
+
 def _narrow(rg, uid, lo=None, hi=None):
     """ranges with the interval of `uid` intersected with [lo, hi] (a bound is only
     replaced when it is provably tighter)"""
@@ -1858,3 +1920,148 @@ def _join_w(a, b):
 
 def _fmt(w):
     return ', '.join('%s=%s' % (k.replace('#D', 'D').strip('#'), v) for k, v in sorted(w.items()) if not k.startswith('#j'))
+
+
+def alias_hazards(ka, W, R, dmax=5):
+    """read-after-write hazards if array R shares storage with array W: a read of R[i] that executes after a
+    write of W[i] (later statement of the same iteration, or a later iteration in the loop's actual order)
+    sees the new value although the algorithm needs the operand's original one.
+    -> list of (write stmt, read node, witness)"""
+    import itertools
+    from .affine import _Default
+    out = []
+    range_of = {}
+    for uid, lo, hi in ka.var_ranges:
+        if hi is not None:
+            range_of[uid] = (lo, hi)
+    writes = [w for w in ka.wlog if w[0] == W]
+    reads = [r for r in ka.rlog if r.arr == R]
+    seen = set()
+    for (wa, wkind, wseq, wloops, wst) in writes:
+        for r in reads:
+            key = (id(wst), id(r.node))
+            if key in seen:
+                continue
+            # variables: write side uses the original uids, read side primed copies for loop variables
+            rl = r.loops
+            common = 0
+            while common < len(wloops) and common < len(rl) and wloops[common][0] == rl[common][0]:
+                common += 1
+
+            def prime(a):
+                for (uid, _d) in rl:
+                    a = a.subs(uid, Aff.var(uid + "'"))
+                return a
+            ridx = prime(r.idx)
+            w_vars = [u for u, _ in wloops]
+            r_vars = [u for u, _ in rl]
+            extra = sorted(v for v in r.idx.vars() if v not in r_vars and v in range_of)
+            wit = _search_hazard(wkind, wseq, wloops, ridx, r.seq, rl, common, range_of, extra, dmax)
+            if wit is not None:
+                seen.add(key)
+                out.append((wst, r.node, wit))
+    return out
+
+
+def _search_hazard(wkind, wseq, wloops, ridx, rseq, rloops, common, range_of, extra, dmax):
+    import math
+    for D in range(1, dmax + 1):
+        base = {'#D': D}
+
+        def enum(vars_, primed, val, k=0):
+            if k == len(vars_):
+                yield dict(val)
+                return
+            uid = vars_[k]
+            if uid not in range_of:
+                return
+            lo, hi = range_of[uid]
+            try:
+                src = dict(val)
+                if primed:
+                    # bounds of primed variables refer to primed outer variables
+                    l = _ev(lo, src, primed=True)
+                    h = _ev(hi, src, primed=True)
+                else:
+                    l = _ev(lo, src)
+                    h = _ev(hi, src)
+            except KeyError:
+                return
+            for x in range(int(math.ceil(l)), int(math.floor(h)) + 1):
+                val[uid + ("'" if primed else '')] = x
+                for v in enum(vars_, primed, val, k + 1):
+                    yield v
+            val.pop(uid + ("'" if primed else ''), None)
+        wv = [u for u, _ in wloops]
+        rv = [u for u, _ in rloops]
+        for val_w in enum(wv, False, dict(base)):
+            for val in enum(rv, True, dict(val_w)):
+                # execution order: read after write?
+                after = None
+                for k in range(common):
+                    uid, desc = wloops[k]
+                    a, b = val[uid], val[uid + "'"]
+                    if a == b:
+                        continue
+                    later = (b < a) if desc else (b > a)
+                    after = later
+                    break
+                if after is None:
+                    after = rseq > wseq
+                if not after:
+                    continue
+                # position variables of the read
+                for val2 in _enum_extra(extra, range_of, dict(val)):
+                    try:
+                        i = ridx.eval(_DefaultP(val2))
+                    except KeyError:
+                        continue
+                    if wkind[0] == 'idx':
+                        try:
+                            e = wkind[1].eval(_DefaultP(val2))
+                        except KeyError:
+                            continue
+                        if i == e:
+                            return {k.replace('#D', 'D'): v for k, v in val2.items() if not k.startswith('#j')}
+                    else:
+                        return None
+    return None
+
+
+class _DefaultP(dict):
+    def __missing__(self, k):
+        if k.endswith("'") and k[:-1] in self:
+            return self[k[:-1]]
+        return 3
+
+
+def _ev(aff, val, primed=False):
+    s = aff.c
+    for k, v in aff.t.items():
+        kk = (k + "'") if (primed and (k + "'") in val) else k
+        if kk not in val:
+            if k.startswith('#') or '@' in k:
+                raise KeyError(k)
+            s += v * 3
+        else:
+            s += v * val[kk]
+    return s
+
+
+def _enum_extra(extra, range_of, val, k=0):
+    import math
+    if k == len(extra):
+        yield val
+        return
+    uid = extra[k]
+    lo, hi = range_of[uid]
+    try:
+        l = _ev(lo, val, primed=True)
+        h = _ev(hi, val, primed=True)
+    except KeyError:
+        return
+    for x in range(int(math.ceil(l)), int(math.floor(h)) + 1):
+        val[uid] = x
+        for v in _enum_extra(extra, range_of, val, k + 1):
+            yield v
+    val.pop(uid, None)
